@@ -76,11 +76,18 @@ theorem gc_prefix_safe (ver id1 id2 : Bytes) (live : List Bytes) (t₀ : Target)
     (oS : List Nat) (hoS : d ∈ oS) (k : Nat) :
     startPoint ver [id1, id2] oS (applyAll t₀ ((gcReqs t₀ live before orders).take k))
       = some (some (X, d)) := by
+  have hrid : ∀ db, ∀ e ∈ t₀.cps db n, ridSel [id1, id2] e = true → e.val ≠ qmark := by
+    intro db e he hs
+    rw [ridSel_iff] at hs
+    rw [P.own db e he hs.2]
+    rcases (matchId_pair id1 id2 _).mp hs.1 with h | h <;> rw [h]
+    · exact P.h1q
+    · exact P.h2q
   rcases P.carrier with hc | hc
-  · have hi : Inv id1 id2 id1 t₀ n r d X := ⟨P.hn, P.holds, hc⟩
+  · have hi : Inv id1 id2 id1 t₀ n r d X := ⟨P.hn, P.holds, hc, hrid⟩
     exact (gcLoop_prefix P.hne P.h1 (Or.inl rfl) P.h1q live P.live1 P.live2 before t₀.hash orders t₀
       hi P.own k).startPoint P.hn0 ver oS hoS
-  · have hi : Inv id1 id2 id2 t₀ n r d X := ⟨P.hn, P.holds, hc⟩
+  · have hi : Inv id1 id2 id2 t₀ n r d X := ⟨P.hn, P.holds, hc, hrid⟩
     exact (gcLoop_prefix P.hne P.h1 (Or.inr rfl) P.h2q live P.live1 P.live2 before t₀.hash orders t₀
       hi P.own k).startPoint P.hn0 ver oS hoS
 
@@ -232,7 +239,19 @@ example : GcPre exId1 exId2 [exId1, exId2] exT exCp exId2 2 700 :=
     holds := ex_holds, own := ex_own,
     carrier := Or.inr ⟨by rw [exT_cps]; decide, by rw [exT_cps]; decide⟩ }
 example : gcReqs exT [exId1, exId2] 10 [[5, 2]]
-    = [Req.hdelCp 5 exCp (fourKeys exId2)] := by decide
+    = [Req.hdelCp 5 exCp (staleKeys exId2 true)] := by decide
+
+/-- the shape the replay path leaves: the NEWEST entry (database 2) has no `_mtime` field at all
+    (Mtime reads 0, "stale" for every threshold) — gc still only deletes the older entry of database 5 -/
+def exNoMt : Target :=
+  { hash := [(exId2, exCp)],
+    cps := fun db n => if n = exCp then
+      (if db = 2 then [⟨exId2, .runid, exId2⟩, ⟨exId2, .offset, [55, 48, 48]⟩]
+       else if db = 5 then [⟨exId2, .mtime, [53]⟩, ⟨exId2, .runid, exId2⟩, ⟨exId2, .offset, [49, 48, 48]⟩]
+       else []) else [] }
+example : gcReqs exNoMt [exId1, exId2] 10 [[5, 2]] = [Req.hdelCp 5 exCp (staleKeys exId2 true)] := by decide
+example : startPoint [49] [exId1, exId2] [5, 2] (applyAll exNoMt (gcReqs exNoMt [exId1, exId2] 10 [[5, 2]]))
+    = some (some (700, 2)) := by decide
 
 /-- the strict maximum (`Holds.dom`) is needed: with EQUAL offsets in two databases
     `GetCheckpoint` breaks the tie by mtime, `DelStaleCheckpoint` by iteration order —
